@@ -158,9 +158,6 @@ pub enum Parse4 {
     /// `used` counts from the CD octet (the VN octet is read by the caller)
     Complete { cmd: u8, host: Host4, port: u16, used: usize, user_len: usize },
     Incomplete,
-    /// DSTIP in 0.0.0.0/8 but not 0.0.0.x with x != 0: neither SOCKS4 nor the
-    /// SOCKS4a convention says what it means
-    Outside,
 }
 
 /// Parse `CD DSTPORT DSTIP USERID NUL [DOMAIN NUL]` (everything after VN).
@@ -171,10 +168,9 @@ pub fn parse_request4(b: &[u8]) -> Parse4 {
     let cmd = b[0];
     let port = u16::from(b[1]) << 8 | u16::from(b[2]);
     let ip: [u8; 4] = b[3..7].try_into().unwrap();
+    // The SOCKS4a convention: the server reads a domain name if and only if DSTIP is 0.0.0.x with x != 0.
+    // Every other DSTIP (0.0.0.0 and 0.y.z.w included) is a plain SOCKS4 request for that address.
     let is_4a = ip[0] == 0 && ip[1] == 0 && ip[2] == 0 && ip[3] != 0;
-    if ip[0] == 0 && !is_4a {
-        return Parse4::Outside;
-    }
     let Some(unul) = b[7..].iter().position(|&x| x == 0) else { return Parse4::Incomplete };
     let after_user = 7 + unul + 1;
     if !is_4a {
